@@ -207,6 +207,23 @@ _R67 = {
 for _p, _t in _R67.items():
     PROPS[_p]["rule"] += _t
 
+# ---- round 8
+_R8 = {
+ "C01": " Plus: one cache through 66200 synchronisations (probes around 2^15 and 2^16).",
+ "C02": " Plus: UIDs that differ between versions of one key.",
+ "C04": " Plus: a reconnect may not resume behind a version the subscriber had already received.",
+ "C05": " Plus: relist-detected deletions and same-version deletes reaching a subscriber below an accept-all filtered clone.",
+ "C07": " Plus: a parent history (in-place update, relabel out of / back into the current filter) before the refilter under test.",
+ "C11": " Plus: close/cancel/list error after the watch was re-established through the reconnect delay; a burst immediately followed by the root's stop (every subscriber gets the whole tail before Events() closes).",
+ "C13": " Plus: bursts of 150 watch events against a watcher held for milliseconds, across relists.",
+ "C14": " Plus: Close() while a slow filter keeps the controller inside a list, a relist or a watch event.",
+ "C17": " Plus: closures of one function literal with different captures, > and < selectors, 15 sources sharing names across two namespaces, arguments changed after construction.",
+ "C18": " Plus: > and < selectors, arguments changed after construction.",
+ "C19": " Plus: workloads scaled to zero replicas.",
+}
+for _p, _t in _R8.items():
+    PROPS[_p]["rule"] += _t
+
 
 # ---- coverage floors (quick tier): half of what a quick run at seed 1 observes; counts that are
 # deterministic by construction (states, pairs of C07, request-checks) are exact; throughput-dependent
